@@ -38,15 +38,17 @@ type Cfg struct {
 	PenaltyInactive  uint64 // PenaltyFractionForInactive (percent)
 	SubsidyThreshold uint64
 	MaxStake         uint64 // MaxStakes for every role (stake units)
+	Pool             int64  // genesis balance of the rewards pool account (subsidies): well funded, nearly dry or empty
 }
 
 // DefaultCfg is the table of Appendix B.
 func DefaultCfg() Cfg {
 	return Cfg{Period: 4, MaxRewardsPeriod: 2, WithdrawDelay: 6, Retention: 4, InactWait: 8, PenaltyInactive: 10,
-		SubsidyThreshold: 1000, MaxStake: 150}
+		SubsidyThreshold: 1000, MaxStake: 150, Pool: 1000000}
 }
 
 var installed bool
+var installedCfg Cfg
 
 // Install writes the scaled table into params.Versions[YouV5].  Must be called once, before any chain exists.
 func Install(c Cfg) {
@@ -54,6 +56,7 @@ func Install(c Cfg) {
 		panic("parameter table already installed in this process")
 	}
 	installed = true
+	installedCfg = c
 	if os.Getenv("VERIF_LOG") == "" { // VERIF_LOG=1 keeps the repository's own log output (debugging aid)
 		logging.Root().SetHandler(logging.DiscardHandler())
 	}
@@ -119,6 +122,8 @@ type World struct {
 	Signer  types.Signer
 	Genesis *core.Genesis
 	TxKind  map[common.Hash]*TxInfo // transactions included so far (for decoding staking records)
+	// GasLimit is the gas limit of the block under construction (for transactions whose gas limit is near it)
+	GasLimit uint64
 }
 
 // TxInfo is what a pending staking transaction detains, decoded from the transaction itself.
@@ -205,7 +210,7 @@ func NewWorldEngine(engA ChainEngine) *World {
 	for i := 1; i <= NNew; i++ {
 		alloc[ns[i].Addr] = core.GenesisAccount{Balance: big.NewInt(10000000)}
 	}
-	alloc[yp.RewardsPoolAddress] = core.GenesisAccount{Balance: big.NewInt(1000000)}
+	alloc[yp.RewardsPoolAddress] = core.GenesisAccount{Balance: big.NewInt(installedCfg.Pool)}
 	alloc[ContractAddr] = core.GenesisAccount{Balance: big.NewInt(0), Code: contractCode}
 	vals := core.GenesisValidators{}
 	roles := []params.ValidatorRole{params.RoleChancellor, params.RoleHouse, params.RoleSenator}
@@ -389,6 +394,12 @@ func (w *World) MakeTxAt(a *ATx, nonce uint64, balance *big.Int) *types.Transact
 		if value.Sign() < 0 {
 			value = new(big.Int)
 		}
+	case "widegas": // a plain transfer whose gas LIMIT is nearly the block's gas limit (it uses 21000)
+		to, value = w.Who[a.B].Addr, x
+		gas = params.TxGas
+		if w.GasLimit > 30000 {
+			gas = w.GasLimit - 5000
+		}
 	case "gap": // a transfer one nonce ahead: not executable until the gap is filled
 		to, value, gas = w.Who[a.B].Addr, x, params.TxGas
 		nonce++
@@ -484,6 +495,7 @@ func (w *World) BuildBlock(ab *ABlock, h *BuildHooks) (*types.Block, types.Recei
 		return nil, nil, err
 	}
 	sdb.IntermediateRoot(true)
+	w.GasLimit = hdr.GasLimit
 	if h != nil && h.Start != nil {
 		h.Start(num.Uint64(), sdb, hdr)
 	}
